@@ -519,6 +519,16 @@ pub struct Pipe {
     pub polls: Rc<RefCell<(usize, usize)>>, // (pending results given, partial writes)
     /// writing side: (poll_shutdown was called, the pipe was dropped) -- what the medium can signal
     pub half: Rc<std::cell::Cell<(bool, bool)>>,
+    /// writing side, staging mode (a stream that buffers internally, BufWriter/TLS-like): poll_write
+    /// accepts into `stage`; poll_flush moves the stage to the wire (`out`) after answering Pending
+    /// the scripted number of times (`fl`, cyclic, one entry per flush operation); poll_shutdown
+    /// flushes, then closes; bytes still staged when the pipe is dropped are LOST.
+    staging: bool,
+    stage: Vec<u8>,
+    fl: Vec<usize>,
+    fl_pos: usize,
+    fl_left: Option<usize>,
+    pub flush_pendings: Rc<std::cell::Cell<usize>>,
     /// reading side: false = the peer has neither shut down nor dropped: after the chunks, Pending for ever
     eof: bool,
     pub stalled: Rc<std::cell::Cell<bool>>,
@@ -533,7 +543,17 @@ impl Drop for Pipe {
 
 impl Pipe {
     pub fn writer(wr: &[usize]) -> Pipe {
+        Pipe::writer_staged(wr, &[])
+    }
+    /// fl non-empty: staging mode
+    pub fn writer_staged(wr: &[usize], fl: &[usize]) -> Pipe {
         Pipe {
+            staging: !fl.is_empty(),
+            stage: vec![],
+            fl: fl.to_vec(),
+            fl_pos: 0,
+            fl_left: None,
+            flush_pendings: Rc::new(std::cell::Cell::new(0)),
             out: Rc::new(RefCell::new(vec![])),
             wr: if wr.iter().any(|&x| x > 0) { wr.to_vec() } else { vec![usize::MAX] },
             wr_pos: 0,
@@ -550,6 +570,12 @@ impl Pipe {
     /// eof = false: the writing end was neither shut down nor dropped, so no end-of-stream arrives
     pub fn reader_with(chunks: Vec<Option<Vec<u8>>>, eof: bool) -> Pipe {
         Pipe {
+            staging: false,
+            stage: vec![],
+            fl: vec![],
+            fl_pos: 0,
+            fl_left: None,
+            flush_pendings: Rc::new(std::cell::Cell::new(0)),
             out: Rc::new(RefCell::new(vec![])),
             wr: vec![usize::MAX],
             wr_pos: 0,
@@ -575,13 +601,46 @@ impl AsyncWrite for Pipe {
         if n < buf.len() {
             self.polls.borrow_mut().1 += 1;
         }
-        self.out.borrow_mut().extend_from_slice(&buf[..n]);
+        if self.staging {
+            self.stage.extend_from_slice(&buf[..n]);
+        } else {
+            self.out.borrow_mut().extend_from_slice(&buf[..n]);
+        }
         Poll::Ready(Ok(n))
     }
-    fn poll_flush(self: Pin<&mut Self>, _: &mut Context<'_>) -> Poll<io::Result<()>> {
-        Poll::Ready(Ok(()))
+    fn poll_flush(mut self: Pin<&mut Self>, cx: &mut Context<'_>) -> Poll<io::Result<()>> {
+        if !self.staging {
+            return Poll::Ready(Ok(()));
+        }
+        if self.fl_left.is_none() && self.stage.is_empty() {
+            // nothing staged: a flush has nothing to wait for (and the next layer's flush right
+            // after a completed one must not start a new round of Pending results)
+            return Poll::Ready(Ok(()));
+        }
+        if self.fl_left.is_none() {
+            let k = self.fl[self.fl_pos % self.fl.len()];
+            self.fl_pos += 1;
+            self.fl_left = Some(k);
+        }
+        match self.fl_left {
+            Some(k) if k > 0 => {
+                self.fl_left = Some(k - 1);
+                self.flush_pendings.set(self.flush_pendings.get() + 1);
+                cx.waker().wake_by_ref();
+                Poll::Pending
+            }
+            _ => {
+                self.fl_left = None;
+                let staged = std::mem::take(&mut self.stage);
+                self.out.borrow_mut().extend_from_slice(&staged);
+                Poll::Ready(Ok(()))
+            }
+        }
     }
-    fn poll_shutdown(self: Pin<&mut Self>, _: &mut Context<'_>) -> Poll<io::Result<()>> {
+    fn poll_shutdown(mut self: Pin<&mut Self>, _: &mut Context<'_>) -> Poll<io::Result<()>> {
+        // shutdown = flush what is staged, then close
+        let staged = std::mem::take(&mut self.stage);
+        self.out.borrow_mut().extend_from_slice(&staged);
         let (_, d) = self.half.get();
         self.half.set((true, d));
         Poll::Ready(Ok(()))
@@ -629,6 +688,8 @@ pub struct Script {
     pub codec: Codec,
     pub rd: Vec<usize>,
     pub wr: Vec<usize>,
+    /// non-empty: the byte stream stages writes; entry = Pending results of one flush operation (cyclic)
+    pub fl: Vec<usize>,
     pub cut: usize,
     pub toks: Vec<Tok>,
 }
@@ -642,7 +703,7 @@ fn show_sizes(v: &[usize]) -> String {
 
 pub fn parse(line: &str) -> Option<Script> {
     let (cfg, rest) = line.trim().split_once('|')?;
-    let mut s = Script { codec: Codec::Bincode, rd: vec![], wr: vec![], cut: 0, toks: vec![] };
+    let mut s = Script { codec: Codec::Bincode, rd: vec![], wr: vec![], fl: vec![], cut: 0, toks: vec![] };
     for kv in cfg.split(',') {
         let (k, v) = kv.split_once('=')?;
         match k.trim() {
@@ -657,6 +718,7 @@ pub fn parse(line: &str) -> Option<Script> {
             }
             "rd" => s.rd = sizes(v),
             "wr" => s.wr = sizes(v),
+            "fl" => s.fl = sizes(v),
             "cut" => s.cut = v.parse().ok()?,
             _ => return None,
         }
@@ -675,9 +737,10 @@ pub fn show(s: &Script) -> String {
         Codec::Bounded(c) => format!("bounded{c}"),
     };
     format!(
-        "codec={codec},rd={},wr={},cut={}|{}",
+        "codec={codec},rd={},wr={},fl={},cut={}|{}",
         show_sizes(&s.rd),
         show_sizes(&s.wr),
+        show_sizes(&s.fl),
         s.cut,
         s.toks.iter().map(|t| t.show()).collect::<Vec<_>>().join(" ")
     )
@@ -762,7 +825,8 @@ macro_rules! framed_run {
         let now: Instant = $now;
         let mut tags: Vec<String> = vec![];
         let mut obs: Vec<Vec<String>> = vec![];
-        let pipe = Pipe::writer(&s.wr);
+        let pipe = Pipe::writer_staged(&s.wr, &s.fl);
+        let fpend = pipe.flush_pendings.clone();
         let out = pipe.out.clone();
         let wpolls = pipe.polls.clone();
         let half = pipe.half.clone();
@@ -952,6 +1016,12 @@ macro_rules! framed_run {
         }
         if w > 0 {
             tags.push("partial-write".into());
+        }
+        if !s.fl.is_empty() {
+            tags.push("staged-stream".into());
+        }
+        if fpend.get() > 0 {
+            tags.push("flush-pending".into());
         }
         Outcome { obs, tags, chunks: chunks_used }
     }};
@@ -1241,7 +1311,14 @@ pub fn gen(rng: &mut Rng) -> Script {
     // a cut inside the last frame (k = 4 is exactly the length header: tokio-util then reports a
     // clean end-of-stream, which C15 accepts and C16 records as a known finding)
     let cut = if framed && rng.chance(1, 6) { *rng.pick(&[1usize, 2, 3, 4, 5, 6, 9, 17]) } else { 0 };
-    Script { codec, rd, wr, cut, toks }
+    // half of the framed scripts run over a stream that stages writes and whose flush answers
+    // Pending 0..3 times per flush operation before it completes
+    let fl = if framed && rng.chance(1, 2) {
+        rng.pick(&[vec![0usize], vec![1], vec![2, 0, 1], vec![3], vec![0, 1]]).clone()
+    } else {
+        vec![]
+    };
+    Script { codec, rd, wr, fl, cut, toks }
 }
 
 /// Whitespace (space, tab, LF, CR) inserted at random token boundaries of a JSON text.
@@ -1459,7 +1536,7 @@ pub fn sweep(mut f: impl FnMut(Script)) {
                 toks.push(Tok::Recv);
                 toks.push(Tok::Recv);
             }
-            f(Script { codec: codec.clone(), rd: vec![3, 0, 5, 2], wr: vec![2, 0, 7], cut: 0, toks });
+            f(Script { codec: codec.clone(), rd: vec![3, 0, 5, 2], wr: vec![2, 0, 7], fl: if k % 3 == 0 { vec![] } else { vec![k % 3] }, cut: 0, toks });
         }
         for id in BOUNDARY_IDS {
             for p in &pats {
@@ -1479,7 +1556,7 @@ pub fn sweep(mut f: impl FnMut(Script)) {
                         *secs = 1 << 40;
                     }
                 }
-                f(Script { codec: codec.clone(), rd: p.clone(), wr: p.clone(), cut: 0, toks });
+                f(Script { codec: codec.clone(), rd: p.clone(), wr: p.clone(), fl: if id % 2 == 0 { vec![1, 0] } else { vec![] }, cut: 0, toks });
             }
         }
     }
@@ -1491,14 +1568,14 @@ pub fn sweep(mut f: impl FnMut(Script)) {
                 Tok::Cancel { id: 300, tr: Tr { tid: 3, sid: 4, sampled: false } },
                 Tok::Close,
             ];
-            f(Script { codec: codec.clone(), rd: vec![2, 0, 3], wr: vec![5], cut, toks });
+            f(Script { codec: codec.clone(), rd: vec![2, 0, 3], wr: vec![5], fl: if cut % 2 == 0 { vec![2] } else { vec![] }, cut, toks });
         }
     }
     // one frame above 64 KiB and one of 1 MiB
     for codec in [Codec::Bincode, Codec::Json] {
         for n in [70000u64, 1 << 20] {
             let toks = vec![Tok::Ok { id: 1, body: Body::Rep(n, b'q') }, Tok::Ok { id: 2, body: Body::Bytes(vec![]) }, Tok::Close];
-            f(Script { codec: codec.clone(), rd: vec![65536, 0, 1], wr: vec![100000, 0], cut: 0, toks });
+            f(Script { codec: codec.clone(), rd: vec![65536, 0, 1], wr: vec![100000, 0], fl: vec![1], cut: 0, toks });
         }
     }
 }
